@@ -197,7 +197,7 @@ Definition no_unknown (o : obj) : bool := match ounk o with [] => true | _ => fa
 Fixpoint keys_nodup (sc : schema) (d : list (pv * pv)) : bool :=
   match d with
   | [] => true
-  | (k, _) :: r => negb (existsb (fun kv => pv_eq sc (fst kv) k) r) && keys_nodup sc r
+  | (k, _) :: r => negb (existsb (fun kv => pv_eq sc k (fst kv)) r) && keys_nodup sc r
   end.
 Definition keys_unique (sc : schema) (o : obj) : bool :=
   forallb (fun x => match x with PDict d => keys_nodup sc d | _ => true end) (oraw o).
@@ -233,7 +233,20 @@ Definition sow_ok (sc : schema) (o : obj) : bool :=
 Definition c01_value_ok (sc : schema) (o : obj) : bool :=
   in_range sc o &&
   deep (fun o' => oneof_clean sc o' && cur_ok sc o' && no_unknown o' && keys_unique sc o') (PMsg o).
-Definition c01_schema_ok (sc : schema) : bool := wf_schema sc && builtins_exact sc.
+(* the synthetic Entry class of a map field is annotated like the map itself (Dict[K, V] -> key: K, value: V);
+   wf_schema only asks that both annotations fit the proto types *)
+Definition entry_hints_ok (sc : schema) (f : fdesc) : bool :=
+  match fhint f with
+  | HDict pk pv' =>
+      match cfields (get_class sc (fentry f)) with
+      | [fk; fv] => hint_eqb (fhint fk) (HPlain pk) && hint_eqb (fhint fv) (HPlain pv')
+      | _ => false
+      end
+  | _ => true
+  end.
+Definition entries_ok (sc : schema) : bool :=
+  forallb (fun cd => forallb (entry_hints_ok sc) (cfields cd)) (classes sc).
+Definition c01_schema_ok (sc : schema) : bool := wf_schema sc && builtins_exact sc && entries_ok sc.
 
 (* ------------------------------------------------------------------------------------------ *)
 (* 3. the decoded form of the encoding                                                          *)
